@@ -29,11 +29,13 @@ CLS = ["A", "B", "C", "B2", "D"]
 
 
 def _mk(kind, val):
+    # (a third of the Parameters are hidden from GUIs - negative precedence - which changes nothing for the namespace)
+    prec = -1 if val % 3 == 0 else None
     if kind == "num":
-        return param.Number(default=val)
+        return param.Number(default=val, precedence=prec)
     if kind == "int":
-        return param.Integer(default=int(val))
-    return param.String(default=f"s{val}")
+        return param.Integer(default=int(val), precedence=prec)
+    return param.String(default=f"s{val}", precedence=prec)
 
 
 def _val(kind, val):
@@ -53,11 +55,13 @@ _name = st.integers(0, len(NAMES) - 1)
 
 def _ops():
     return st.one_of(
-        st.tuples(st.just("read"), _cls, st.sampled_from(["list", "getitem", "values", "objects", "contains", "inst_values", "repr"])),
-        st.tuples(st.just("read"), _cls, st.sampled_from(["list", "getitem", "values", "objects", "contains", "inst_values", "repr"])),
+        st.tuples(st.just("read"), _cls, st.sampled_from(["list", "getitem", "values", "objects", "contains", "inst_values", "repr", "repr_html", "inst_repr_html"])),
+        st.tuples(st.just("read"), _cls, st.sampled_from(["list", "getitem", "values", "objects", "contains", "inst_values", "repr", "repr_html", "inst_repr_html"])),
         st.tuples(st.just("cls_set"), _cls, _name, _small),
         st.tuples(st.just("cls_set"), _cls, _name, _small),
         st.tuples(st.just("cls_set_bad"), _cls, _name3),
+        # a class-level assignment during which a class-level watcher reads the namespaces and then raises
+        st.tuples(st.just("cls_set_watcher_raises"), _cls, _name3, _small),
         st.tuples(st.just("cls_assign_param"), _cls, _name, _kind, _small),
         # `with Cls.param.update(...)` on a class (optionally reading namespaces / creating an instance inside the block)
         st.tuples(st.just("cls_updctx"), _cls, _name, _small, st.sampled_from(["none", "read", "new"])),
@@ -89,6 +93,10 @@ def _case(draw):
 
 def strategy(tier):
     return _case()
+
+
+class _Boom(Exception):
+    pass
 
 
 def _static(K):
@@ -211,13 +219,17 @@ def execute(case):
                 K.param.objects(instance=False)
             elif how == "contains":
                 "x" in K.param
-            elif how in ("inst_values", "repr"):
+            elif how in ("inst_values", "repr", "inst_repr_html"):
                 cand = [i for i in insts if type(i) is K]
                 if cand:
                     if how == "repr":
                         repr(cand[0])
+                    elif how == "inst_repr_html":
+                        cand[0].param._repr_html_()        # what a notebook calls to display the object
                     else:
                         cand[0].param.values()
+            elif how == "repr_html":
+                K.param._repr_html_()
             read_classes.add(K)
             # reads are themselves the cache-populating step; the invariant is NOT run after a
             # read so that it cannot mask (or pre-populate) anything
@@ -248,6 +260,36 @@ def execute(case):
                 res.label("rejected_class_level_set" + ("_on_inherited" if n not in vars(K) or stat[n] is not vars(K).get(n) else ""))
             else:
                 res.dontcare += 1
+        elif name == "cls_set_watcher_raises":
+            K = classes[op[1]]
+            stat = _static(K)
+            n = NAMES[op[2]]
+            if n not in stat:
+                continue
+
+            def peek_and_fail(*events):
+                for e in events:
+                    for k in classes:
+                        if k is e.cls or e.cls in parents[k]:
+                            list(k.param)
+                            k.param[n]
+                            k.param.values()
+                raise _Boom("class-level watcher")
+            h = K.param.watch(peek_and_fail, n, onlychanged=False)
+            try:
+                setattr(K, n, _val(kind_of(stat[n]), op[3]))
+            except _Boom:
+                res.label("class_level_set_with_raising_watcher" + ("_on_inherited" if stat[n] is not vars(K).get(n) or True else ""))
+            finally:
+                # (the assignment may have given K a Parameter of its own: the watcher lives on whichever object holds it now)
+                try:
+                    K.param.unwatch(h)
+                except Exception:  # noqa: BLE001
+                    pass
+                for k in classes:
+                    for p_ in (vars(k).get(n),):
+                        if isinstance(p_, param.Parameter) and p_.watchers.get("value"):
+                            p_.watchers["value"] = [w for w in p_.watchers["value"] if w is not h]
         elif name == "cls_updctx":
             K = classes[op[1]]
             stat = _static(K)
